@@ -626,6 +626,7 @@ impl InstrFormat for InstrFormat07 {
 
     fn write_instr(&self, f: &mut BinWriter, emitter: &dyn Emitter, instr: &RawInstr) -> WriteResult {
         use crate::llir::instr_header_field as field;
+        crate::llir::forbid_terminal_opcode(emitter, instr.opcode)?;
         f.write_u16(instr.opcode)?;
         f.write_u16(field(emitter, "instruction size", self.instr_size(instr) as i64)?)?;
         f.write_i16(field(emitter, "time", instr.time as i64)?)?;
